@@ -26,6 +26,11 @@ CORE = [
     ["THREAD 1 M1000 A", "THREAD 2 J1000n", "THREAD 3 M0n L1", "MAIN L3 L2 J2 JA"],
     ["THREAD 1 M O1 A", "THREAD 2 M O1", "THREAD 3 J O1 O2 V", "MAIN L1 L2 L3 O1 J3 JA"],
     ["THREAD 1 Jn V O1", "THREAD 2 M V O1", "MAIN L1 L2 O2 J1 JA"],
+    # bounded join-all (aws_thread_set_managed_join_timeout_ns): gives up no earlier than the time-out, succeeds in time
+    ["THREAD 1 M Z50", "MAIN T10 L1 JA T0 JA"],
+    ["THREAD 1 M Z5000", "THREAD 2 M", "MAIN T10 L1 L2 JA T0 JA"],
+    ["THREAD 1 M Z5 A", "THREAD 2 M", "MAIN T100 L1 L2 JA T0 JA"],
+    ["THREAD 1 M Z20 A", "THREAD 2 M Z40", "MAIN L1 L2 T30 JA T0 JA"],
 ]
 
 
@@ -38,6 +43,7 @@ def random_scenario(rng):
         # only managed threads may be launched from inside another thread (main joins the manual ones)
         parent[i] = 0 if (kinds[i] == "J" or i == 1 or rng.random() < 0.55) else rng.randint(1, i - 1)
     lines = []
+    bounded = rng.random() < 0.25          # join-all with a time-out, then once more without
     for i in range(1, n + 1):
         ops = []
         for _ in range(rng.choice([0, 0, 1, 2, 3])):
@@ -51,6 +57,8 @@ def random_scenario(rng):
             ops.append("O%d" % rng.randint(1, 2))        # several threads meet at the same once-flag
         if rng.random() < 0.2:
             ops.append("V")
+        if bounded and kinds[i] == "M" and rng.random() < 0.6:
+            ops.append("Z%d" % rng.choice([1, 5, 10, 20, 50, 200, 3000, 5000]))
         rng.shuffle(ops)
         # thread options: pinned to a cpu that exists / that does not exist (the library then retries unpinned), named
         opt = rng.choice(["", "", "", "", "0", "1000", "1000", "n", "1000n"])
@@ -70,6 +78,9 @@ def random_scenario(rng):
         main = main + joins + ["JA"]
     else:
         main = main + ["JA"] + joins
+    if bounded:
+        k = main.index("JA")
+        main = main[:k] + ["T%d" % rng.choice([1, 5, 10, 20, 50, 100, 1000]), "JA", "T0", "JA"] + main[k + 1:]
     lines.append("MAIN " + " ".join(main))
     return lines
 
